@@ -20,6 +20,7 @@ var kindNames = map[int]string{0: "bitmap", 1: "array", 2: "run", -1: "nil"}
 // unflagged owner and looks at the other one. Only an observed interference
 // is reported (C07), or a fault inside a region (C08/C16, via try).
 func (w *World) sharingScan() {
+	w.selfProbes = 0
 	var refs []chunkRef
 	for i, o := range w.B {
 		func() {
@@ -170,9 +171,16 @@ func (w *World) regionScan() {
 // capacity of the first reaches into the data of the second). Decided behaviourally: grow
 // the first chunk in place by a few values and see whether the bitmap still equals its model.
 func (w *World) selfOverlapProbe(a, b chunkRef) bool {
-	if a.c.Kind != 1 || a.c.ElemSize == 0 {
-		return false // only array chunks grow by appending within capacity
+	if a.c.Kind != 1 || a.c.ElemSize == 0 || a.c.NeedCOW {
+		// only array chunks grow by appending within capacity, and a chunk flagged
+		// copy-on-write is cloned before any write (e.g. the arrays of a frozen view, which
+		// are consecutive slices of the caller's arena)
+		return false
 	}
+	if w.selfProbes >= 3 {
+		return false
+	}
+	w.selfProbes++
 	w.probe("chunks-of-one-bitmap-overlap-in-memory")
 	key := [2]uintptr{a.c.ContainerPtr, b.c.ContainerPtr}
 	if w.unconf[key] {
